@@ -49,15 +49,28 @@ def beq (a b : Dec) : Bool := cmp a b == .eq
 def lt (a b : Dec) : Bool := cmp a b == .lt
 def le (a b : Dec) : Bool := cmp a b != .gt
 
-def negate (d : Dec) : Dec := { d with neg := !d.neg }
+/-- `decQuadMinus`: flips the sign; a zero gets sign 0 (`decBasic.c:2640`). -/
+def negate (d : Dec) : Dec := if d.coeff == 0 then { d with neg := false } else { d with neg := !d.neg }
 def abs (d : Dec) : Dec := { d with neg := false }
 
-/-- `dec_is_negative`: the sign bit (true for `-0`). -/
-def isNegative (d : Dec) : Bool := d.neg
+/-- `decQuadIsNegative`: sign bit set and not zero (`decBasic.c:2424`). -/
+def isNegative (d : Dec) : Bool := d.neg && d.coeff != 0
 
-/-- `dec_is_integer`: no fractional part. -/
-def isInteger (d : Dec) : Bool :=
-  d.exp ≥ 0 || d.coeff % 10 ^ (-d.exp).toNat == 0
+/-- `decQuadIsInteger` is `DFISINT`: the *exponent is 0* (`decNumberLocal.h:407`) — not
+"the value is integral": `1.0` and `1E+1` are not integers in this sense. -/
+def isInteger (d : Dec) : Bool := d.exp == 0
+
+/-- Strips trailing zeros of the coefficient (`decNumberReduce`); a zero becomes `0E0`
+keeping its sign. `fuel` bounds the loop (34 digits at most). -/
+def stripZeros : Nat → Nat → Int → Nat × Int
+  | 0, c, e => (c, e)
+  | fuel + 1, c, e => if c != 0 && c % 10 == 0 then stripZeros fuel (c / 10) (e + 1) else (c, e)
+
+def reduce (d : Dec) : Dec :=
+  if d.coeff == 0 then ⟨d.neg, 0, 0⟩
+  else
+    let (c, e) := stripZeros 120 d.coeff d.exp
+    ⟨d.neg, c, e⟩
 
 def isOne (d : Dec) : Bool := cmp d one == .eq
 
@@ -93,7 +106,7 @@ def addExact (a b : Dec) : Dec :=
   let s := x + y
   if s == 0 then ⟨a.neg && b.neg, 0, e⟩ else ofSigned s e
 
-def subExact (a b : Dec) : Dec := addExact a (negate b)
+def subExact (a b : Dec) : Dec := addExact a { b with neg := !b.neg }
 
 def mulExact (a b : Dec) : Dec := ⟨a.neg != b.neg, a.coeff * b.coeff, a.exp + b.exp⟩
 
